@@ -212,4 +212,31 @@ def commitPathCheck (f : String × List (Nat × String)) : Bool :=
 /-- the only procedure that may commit without waiting -/
 def unstableCommittersAllowed : List String := ["nfs.NFSPROC3_WRITE"]
 
+/-! ### the hand-over of unfinished truncations (model M15) and server-wide state (C14) -/
+
+/-- `StartShrinker` starts a thread on EVERY path: its statements up to the `go` contain no branch, loop, return or
+    deferred call (table `shrinkerSpawn`, regenerated from shrinker/*.go) -/
+def spawnsOnEveryPath (ks : List String) : Bool :=
+  ks.contains "go" &&
+  (ks.takeWhile (· != "go")).all fun k =>
+    k != "if" && k != "for" && k != "return" && k != "switch" && k != "defer" && k != "goto" && k != "else" && k != "else-if" && k != "other"
+
+/-- the thread runs `DoShrink` first and unconditionally, and `DoShrink` loops until `Shrink` reports nothing more to do
+    (the loop holds `Shrink` and leaves early only through the two `break`s after a refused commit / a crash) -/
+def threadRunsDoShrink (ks : List String) : Bool := ks.head? = some "set:DoShrink"
+
+def doShrinkLoops (ks : List String) : Bool :=
+  let body := ((ks.dropWhile (· != "for")).drop 1).takeWhile (· != "rof")
+  ks.contains "for" && body.contains "set:Shrink" && body.contains "set:Commit" && !body.contains "return" &&
+  (body.filter (· == "break")).length ≤ 2
+
+/-- the structs every request shares and no lock protects: they must be immutable once published -/
+def serverWideTypes : List String := ["nfs.Nfs", "fstxn.FsState", "super.FsSuper", "simple.Nfs", "kvs.KVS"]
+
+/-- writes to them outside a constructor that are known and harmless: the daemon's `main` sets the option before it serves -/
+def serverWideWritesAllowed : List (String × String × String) := [("main.main", "nfs.Nfs", "Unstable")]
+
+def fieldWriteCheck (w : String × String × String × String) : Bool :=
+  !(serverWideTypes.contains w.2.1) || w.2.2.2 = "local" || serverWideWritesAllowed.contains (w.1, w.2.1, w.2.2.1)
+
 end GoNfsd.Model.Skeleton
